@@ -93,6 +93,19 @@ func c32Aliasing(c *ev.Ctx) {
 				me.SetLamport(idx.Lamport(lam))
 				me.SetSeq(idx.Event(k + 1))
 				me.SetCreator(idx.ValidatorID(1 + k%3))
+				if r.Intn(2) == 0 {
+					// parents whose IDs carry any Lamport time, also larger ones than the event's own: the ID of the built
+					// event carries what the event was given, whatever its parents say (validity is the checkers' business)
+					var pm dag.MutableBaseEvent
+					pm.SetEpoch(idx.Epoch(ep))
+					pm.SetLamport(idx.Lamport(lam + uint32(r.Intn(50))))
+					var prid [24]byte
+					r.Read(prid[:4])
+					pm.SetID(prid)
+					me.SetParents(hash.Events{pm.ID()})
+				} else {
+					me.SetParents(nil)
+				}
 				var rid [24]byte
 				r.Read(rid[:])
 				e := me.Build(rid)
